@@ -340,7 +340,7 @@ def run(ctx):
             ctx.broken_obligation('T2-descriptor:%s' % ';'.join('%s!=%s' % d for d in diffs[:3]),
                                   {'schema_fbs': fbs, 'generated_vs_reader': diffs[:10]})
     ctx.cov['schemas'] = len(schemas)
-    ctx.trusted = lib.DEFAULT_TRUSTED + ['translators/consts_probe.c (T1)', 'translators/verifier_h_to_desc.py (T2)',
+    ctx.trusted = lib.DEFAULT_TRUSTED + ['translators/cleaf_to_coq.py (T5: clang 14 -ast-dump=json of verifier.c -> coq/Generated/Leaf_verifier.v; output must be proved equal to the hand model)', 'translators/consts_probe.c (T1)', 'translators/verifier_h_to_desc.py (T2)',
                                          'gen/c01gen.py + gen/fbenc.py (schema, walker and buffer generators)']
     ctx.assumptions = ['little-endian host', 'uoffset 32 bit, voffset 16 bit, utype 8 bit (T1 asserts)', 'NDEBUG build of reader/printer (assertions off)',
                        'buffers up to 2^31 bytes in the theorems; alignment observed through UBSan on the implementation']
